@@ -16,9 +16,9 @@ use chumsky::error::Cheap;
 use chumsky::extra;
 use chumsky::prelude::*;
 
-use crate::ast::*;
-use crate::run;
-use crate::val::*;
+use chumsky_verif_harness::ast::*;
+use chumsky_verif_harness::run;
+use chumsky_verif_harness::val::*;
 
 type ExT<'a> = extra::Err<chumsky::error::Simple<'a, Tok>>;
 
